@@ -24,6 +24,8 @@ const int NSG = 3, MAXEV = 6, MAXLOOP = 3;
 int SIGS[NSG];
 
 // ops: ev <loop> <sigmask 1..7> <oneshot>      en|dis|del <e>      raise <s> <via 0 driver, k>0 loop k-1>
+//      pair <e1> <k1> <e2> <k2>   two subscription changes (k: 0 enable, 1 disable) posted to their loops at once, i.e. concurrently
+//                                 on different threads; the driver waits for both before anything else happens
 void generate(sim::Rng &r, uint64_t seed, const std::string &tier, sim::Plan &p) {
   bool thorough = tier == "thorough";
   long nl = r.range(1, MAXLOOP);
@@ -41,6 +43,7 @@ void generate(sim::Rng &r, uint64_t seed, const std::string &tier, sim::Plan &p)
     if (x < 30) { op.kind = "en"; op.a = {(long)r.below((uint64_t)nev)}; }
     else if (x < 45) { op.kind = "dis"; op.a = {(long)r.below((uint64_t)nev)}; }
     else if (x < 52) { op.kind = "del"; op.a = {(long)r.below((uint64_t)nev)}; }
+    else if (x < 64 && nl > 1) { op.kind = "pair"; op.a = {(long)r.below((uint64_t)nev), (long)r.below(2), (long)r.below((uint64_t)nev), (long)r.below(2)}; }
     else { op.kind = "raise"; op.a = {(long)r.below(NSG), (long)r.below((uint64_t)nl + 1)}; }
     p.ops.push_back(op);
   }
@@ -148,6 +151,19 @@ void execute(const sim::Plan &plan) {
       else if (op.kind == "dis") { on_loop(E.loop, [e] { W.ev[e].ev->disable(); }); E.enabled = false; }
       else { on_loop(E.loop, [e] { delete W.ev[e].ev; W.ev[e].ev = nullptr; }); E.enabled = false; E.exists = false; }
       check_dispositions(op.kind.c_str());
+    } else if (op.kind == "pair") {
+      if (W.nev < 2) continue;
+      int e1 = (int)(((op.arg(0) % W.nev) + W.nev) % W.nev), e2 = (int)(((op.arg(2) % W.nev) + W.nev) % W.nev);
+      if (e1 == e2 || !W.ev[e1].exists || !W.ev[e2].exists || W.ev[e1].loop == W.ev[e2].loop) continue;
+      bool en1 = op.arg(1) == 0, en2 = op.arg(3) == 0;
+      sim::relevant();
+      long want = sim::cell_get(C_ACKS) + 2;
+      W.loops[W.ev[e1].loop]->runInLoop([e1, en1] { if (en1) W.ev[e1].ev->enable(); else W.ev[e1].ev->disable(); sim::cell_add(C_ACKS, 1); }, "c04.pair1");
+      W.loops[W.ev[e2].loop]->runInLoop([e2, en2] { if (en2) W.ev[e2].ev->enable(); else W.ev[e2].ev->disable(); sim::cell_add(C_ACKS, 1); }, "c04.pair2");
+      for (int i = 0; i < 100000 && sim::cell_get(C_ACKS) < want; ++i) sim::sleep_ns(1000000);
+      if (sim::cell_get(C_ACKS) < want) sim::violation("C04/posted-operation-never-ran", "concurrent subscription changes did not complete within 100 s of virtual time");
+      W.ev[e1].enabled = en1; W.ev[e2].enabled = en2;
+      check_dispositions("concurrent subscription changes on two loops");
     } else if (op.kind == "raise") {
       int s = (int)(((op.arg(0) % NSG) + NSG) % NSG);
       bool subs = any_subscriber(s);
